@@ -14,7 +14,7 @@ import (
 
 func init() {
 	register(&Rule{ID: "C02.CHAN", Min: 0, Doc: "no result is taken from a channel: results are consumed in the order of the inputs, never in completion order", Run: runC02Chan})
-	register(&Rule{ID: "C10.PERFILE", Min: 3, Doc: "the loops over the files of one run carry no state from one file to the next except counters and result slices", Run: runC10PerFile})
+	register(&Rule{ID: "C10.PERFILE", Min: 10, Doc: "the loops over the files of one run carry no state from one file to the next except counters and result slices", Run: runC10PerFile})
 	register(&Rule{ID: "C06.IFACECMP", Min: 0, Doc: "no diagnostic depends on comparing two expression types for identity", Run: runC06IfaceCmp})
 	register(&Rule{ID: "C08.SELFKEY", Min: 0, Doc: "a map is not read with a transformed copy of its own iteration key", Run: runC08SelfKey})
 	register(&Rule{ID: "C01.NILELEM", Min: 3, Doc: "a parse result that may be nil is not stored as an element of a sequence or mapping without a nil test", Run: runC01NilElem})
@@ -67,26 +67,230 @@ func runC02Chan(c *Ctx) {
 
 func runC10PerFile(c *Ctx) {
 	p := c.P
-	fn := p.Method("Linter", "LintFiles")
-	if fn == nil {
+	top := p.Method("Linter", "LintFiles")
+	if top == nil {
 		c.anchorMissing("(*Linter).LintFiles")
 		return
 	}
-	n := 0
-	for _, b := range fn.Blocks {
-		if !blockInCycle(b) {
-			continue
+	// LintFiles and the functions it hands the whole list of files to (outside its loops): the per-file loops may have
+	// been moved there
+	fns := []*ssa.Function{top}
+	eachInstr(top, func(b *ssa.BasicBlock, _ int, in ssa.Instruction) {
+		call, ok := in.(*ssa.Call)
+		if !ok || blockInCycle(b) {
+			return
 		}
-		// loop header: some predecessor is reachable from the block itself (back edge)
-		back := false
-		for _, pr := range b.Preds {
-			if b.Dominates(pr) {
-				back = true
+		g := staticCallee(&call.Call)
+		if g == nil || !inModule(g) || g.Blocks == nil || g == top {
+			return
+		}
+		for _, a := range call.Call.Args {
+			if prm, ok := a.(*ssa.Parameter); ok {
+				if _, isSlice := prm.Type().Underlying().(*types.Slice); isSlice {
+					for _, f := range fns {
+						if f == g {
+							return
+						}
+					}
+					fns = append(fns, g)
+					return
+				}
 			}
 		}
-		if !back {
-			continue
+	})
+	n := 0
+	for _, fn := range fns {
+		n += perFileLoops(c, fn)
+	}
+	if n < 3 {
+		c.undecided("(*Linter).LintFiles|loops", top.Pos(), fmt.Sprintf("only %d loops with state found", n))
+	}
+}
+
+// perFileLoops decides the loops of one function that runs over the files; returns the number of loops with state.
+func perFileLoops(c *Ctx, fn *ssa.Function) int {
+	p := c.P
+	pre := FuncName(fn) + "|"
+	// the loops of the function and the index each one runs over
+	type loop struct {
+		h    *ssa.BasicBlock
+		body map[*ssa.BasicBlock]bool
+		idx  map[ssa.Value]bool // the loop's own index (the value compared with the bound in the header)
+	}
+	var loops []*loop
+	for _, h := range loopHeaders(fn) {
+		l := &loop{h: h, body: naturalLoop(h), idx: map[ssa.Value]bool{}}
+		if ifi, ok := h.Instrs[len(h.Instrs)-1].(*ssa.If); ok {
+			if bo, ok := ifi.Cond.(*ssa.BinOp); ok && bo.Op == token.LSS {
+				switch x := bo.X.(type) {
+				case *ssa.Phi:
+					if x.Block() == h {
+						l.idx[x] = true
+					}
+				case *ssa.BinOp:
+					if ph, ok := x.X.(*ssa.Phi); ok && x.Op == token.ADD && ph.Block() == h {
+						if k, ok := constInt(x.Y); ok && k == 1 {
+							l.idx[x] = true
+						}
+					}
+				}
+			}
 		}
+		loops = append(loops, l)
+	}
+	// encloses: l2 is l or a loop around it
+	encloses := func(l2, l *loop) bool { return l2.body[l.h] }
+	// ownIndexAt: idx is the own index of a loop that contains block b and (when inner is given) is `inner` or encloses it
+	ownIndexAt := func(idx ssa.Value, b *ssa.BasicBlock, inner *loop) bool {
+		for _, l2 := range loops {
+			if l2.idx[idx] && l2.body[b] && (inner == nil || encloses(l2, inner)) {
+				return true
+			}
+		}
+		return false
+	}
+	isBuiltin := func(v ssa.Instruction, name string) (*ssa.Call, bool) {
+		call, ok := v.(*ssa.Call)
+		if !ok {
+			return nil, false
+		}
+		bi, ok := call.Call.Value.(*ssa.Builtin)
+		return call, ok && bi.Name() == name
+	}
+	// counterUses: how a loop-carried integer (or a length taken from a loop-carried slice) is used inside the loop. It may
+	// be incremented, compared with the bound in a loop header, used as an index and used to size an allocation. Returns ""
+	// or what else is done with it.
+	var counterUses func(v ssa.Value, l *loop, seen map[ssa.Value]bool) string
+	counterUses = func(v ssa.Value, l *loop, seen map[ssa.Value]bool) string {
+		if seen[v] || v.Referrers() == nil {
+			return ""
+		}
+		seen[v] = true
+		for _, ref := range *v.Referrers() {
+			if ref.Block() == nil || !l.body[ref.Block()] {
+				continue // after the loop
+			}
+			switch r := ref.(type) {
+			case *ssa.Phi, *ssa.Convert, *ssa.ChangeType:
+				if why := counterUses(r.(ssa.Value), l, seen); why != "" {
+					return why
+				}
+			case *ssa.BinOp:
+				switch r.Op {
+				case token.EQL, token.NEQ, token.LSS, token.LEQ, token.GTR, token.GEQ:
+					for _, r2 := range *r.Referrers() {
+						if _, isDbg := r2.(*ssa.DebugRef); isDbg {
+							continue
+						}
+						ifi, isIf := r2.(*ssa.If)
+						isBound := false
+						if isIf {
+							for _, l2 := range loops {
+								if l2.h == ifi.Block() && l2.idx[r.X] {
+									isBound = true
+								}
+							}
+						}
+						if !isBound {
+							return "a condition at " + p.Pos(r.Pos()) + " depends on it: what is done for a file depends on how many files (or findings) came before it"
+						}
+					}
+				default:
+					if why := counterUses(r, l, seen); why != "" {
+						return why
+					}
+				}
+			case *ssa.IndexAddr:
+				if r.Index != v {
+					return "it is used as something other than an index at " + p.Pos(r.Pos())
+				}
+			case *ssa.Index:
+				if r.Index != v {
+					return "it is used as something other than an index at " + p.Pos(r.Pos())
+				}
+			case *ssa.MakeSlice, *ssa.DebugRef:
+			default:
+				return fmt.Sprintf("it is used by %T at %s", ref, p.Pos(ref.Pos()))
+			}
+		}
+		return ""
+	}
+	// sliceUses: how a loop-carried slice is used inside its loop. It may be appended to and its current element may be
+	// accessed (index = the loop's own index, or the last element right after an append in the same iteration).
+	var sliceUses func(v ssa.Value, l *loop, seen map[ssa.Value]bool) string
+	sliceUses = func(v ssa.Value, l *loop, seen map[ssa.Value]bool) string {
+		if seen[v] || v.Referrers() == nil {
+			return ""
+		}
+		seen[v] = true
+		for _, ref := range *v.Referrers() {
+			if ref.Block() == nil || !l.body[ref.Block()] {
+				continue // read after the loop
+			}
+			switch r := ref.(type) {
+			case *ssa.Phi:
+				if why := sliceUses(r, l, seen); why != "" {
+					return why
+				}
+			case *ssa.Slice:
+				if r.X != v {
+					return "it bounds a slice expression at " + p.Pos(r.Pos())
+				}
+				if why := sliceUses(r, l, seen); why != "" {
+					return why
+				}
+			case *ssa.IndexAddr:
+				if r.X != v {
+					continue
+				}
+				if ownIndexAt(r.Index, r.Block(), l) {
+					continue
+				}
+				// s = append(s, x); &s[len(s)-1]: the element added in this iteration
+				if sub, ok := r.Index.(*ssa.BinOp); ok && sub.Op == token.SUB {
+					if k, isOne := constInt(sub.Y); isOne && k == 1 {
+						if lc, ok := sub.X.(*ssa.Call); ok {
+							if _, isLen := isBuiltin(lc, "len"); isLen && lc.Call.Args[0] == v {
+								if ap, ok := v.(*ssa.Call); ok && l.body[ap.Block()] {
+									if _, isApp := isBuiltin(ap, "append"); isApp {
+										continue
+									}
+								}
+							}
+						}
+					}
+				}
+				return "an element other than the current one is accessed inside the loop at " + p.Pos(r.Pos()) + ": what is used for a file depends on the files before it"
+			case *ssa.Call:
+				if _, ok := isBuiltin(r, "append"); ok {
+					if r.Call.Args[0] != v {
+						return "its elements are appended to another slice inside the loop at " + p.Pos(r.Pos())
+					}
+					if why := sliceUses(r, l, seen); why != "" {
+						return why
+					}
+					continue
+				}
+				_, isLen := isBuiltin(r, "len")
+				_, isCap := isBuiltin(r, "cap")
+				if isLen || isCap {
+					if why := counterUses(r, l, map[ssa.Value]bool{}); why != "" {
+						return "its length is taken inside the loop and " + why
+					}
+					continue
+				}
+				return "it is handed to " + calleeFullName(&r.Call) + " inside the loop at " + p.Pos(r.Pos())
+			case *ssa.DebugRef:
+			default:
+				return fmt.Sprintf("it is used by %T inside the loop at %s", ref, p.Pos(ref.Pos()))
+			}
+		}
+		return ""
+	}
+	n := 0
+	judged := map[*ssa.IndexAddr]bool{}
+	for _, l := range loops {
+		b := l.h
 		hasPhi := false
 		for _, in := range b.Instrs {
 			ph, ok := in.(*ssa.Phi)
@@ -94,15 +298,32 @@ func runC10PerFile(c *Ctx) {
 				break
 			}
 			hasPhi = true
-			construct := fmt.Sprintf("(*Linter).LintFiles|loop state %s (block %d)", ph.Comment, b.Index)
+			construct := fmt.Sprintf("%sloop state %s (block %d)", pre, ph.Comment, b.Index)
 			switch t := ph.Type().Underlying().(type) {
 			case *types.Basic:
 				if t.Info()&types.IsInteger != 0 {
-					c.ok(construct, ph.Pos(), "a counter")
+					if why := counterUses(ph, l, map[ssa.Value]bool{}); why != "" {
+						c.bad(construct, ph.Pos(), "a counter is carried from one file to the next and "+why)
+					} else {
+						c.ok(construct, ph.Pos(), "a counter: inside the loop it is only incremented, compared with the loop bound, used as an index and used to size allocations")
+					}
 					continue
 				}
 			case *types.Slice:
-				c.ok(construct, ph.Pos(), "a slice of results in input order")
+				seen := map[ssa.Value]bool{}
+				why := sliceUses(ph, l, seen)
+				for v := range seen {
+					for _, ref := range *v.Referrers() {
+						if ia, ok := ref.(*ssa.IndexAddr); ok && ia.X == v && l.body[ia.Block()] {
+							judged[ia] = true
+						}
+					}
+				}
+				if why != "" {
+					c.bad(construct, ph.Pos(), "a slice is carried from one file to the next and "+why)
+				} else {
+					c.ok(construct, ph.Pos(), "a slice of results in input order: inside the loop it is only appended to and its current element accessed; it is read after the loop")
+				}
 				continue
 			}
 			c.bad(construct, ph.Pos(), "a value of type "+typeStr(ph.Type())+" is carried from one file to the next: what is used for a file depends on the files before it")
@@ -111,9 +332,71 @@ func runC10PerFile(c *Ctx) {
 			n++
 		}
 	}
-	if n < 3 {
-		c.undecided("(*Linter).LintFiles|loops", fn.Pos(), fmt.Sprintf("only %d loops with state found", n))
-	}
+	// every other element access inside a loop uses the index of a loop it is in: no file looks at the slot of another
+	// file (a slice filled by an earlier loop is not loop state of the later ones, but its slots still belong to files)
+	occ := map[string]int{}
+	eachInstr(fn, func(b *ssa.BasicBlock, _ int, in ssa.Instruction) {
+		ia, ok := in.(*ssa.IndexAddr)
+		if !ok || judged[ia] || !blockInCycle(b) {
+			return
+		}
+		if _, isSlice := ia.X.Type().Underlying().(*types.Slice); !isSlice {
+			return // the array behind a variadic call or a composite literal
+		}
+		// slices of the function itself (a parameter, a slice built here): what hangs off one element (w.errs) is that
+		// file's own data
+		name := ""
+		root := ia.X
+		for {
+			if sl, ok := root.(*ssa.Slice); ok {
+				root = sl.X
+				continue
+			}
+			break
+		}
+		switch x := root.(type) {
+		case *ssa.Phi:
+			name = x.Comment
+		case *ssa.Parameter:
+			name = x.Name()
+		case *ssa.MakeSlice:
+			name = "a slice made at " + p.Pos(x.Pos())
+		case *ssa.Call:
+			if _, isApp := isBuiltin(x, "append"); isApp {
+				name = "a slice appended to at " + p.Pos(x.Pos())
+			} else if g := staticCallee(&x.Call); g != nil && inModule(g) {
+				name = "the result of " + FuncName(g)
+			}
+		case *ssa.Extract:
+			if call, ok := x.Tuple.(*ssa.Call); ok {
+				if g := staticCallee(&call.Call); g != nil && inModule(g) {
+					name = "the result of " + FuncName(g)
+				}
+			}
+		}
+		if name == "" {
+			return
+		}
+		var h *ssa.BasicBlock
+		for _, l := range loops {
+			if l.body[b] && (h == nil || naturalLoop(h)[l.h]) {
+				h = l.h // innermost
+			}
+		}
+		if h == nil {
+			return
+		}
+		k := fmt.Sprintf("%selement of %s accessed in loop (block %d)", pre, name, h.Index)
+		occ[k]++
+		if occ[k] > 1 {
+			k = fmt.Sprintf("%s#%d", k, occ[k])
+		}
+		if ownIndexAt(ia.Index, b, nil) {
+			c.ok(k, ia.Pos(), "indexed by the index of a loop it is in")
+		} else {
+			c.bad(k, ia.Pos(), "an element is picked by something other than the loop's own index: a file looks at the slot of another file")
+		}
+	})
 	// the closure handed to each goroutine captures per-file values only: no captured variable is written by the loop after
 	// the goroutine was started (checked for all MakeClosure in loops)
 	eachInstr(fn, func(b *ssa.BasicBlock, _ int, in ssa.Instruction) {
@@ -130,12 +413,13 @@ func runC10PerFile(c *Ctx) {
 			if !blockInCycle(al.Block()) {
 				for _, ref := range *al.Referrers() {
 					if st, ok := ref.(*ssa.Store); ok && st.Addr == ssa.Value(al) && blockInCycle(st.Block()) {
-						c.bad("(*Linter).LintFiles|captured variable "+al.Comment, st.Pos(), "a variable shared by all per-file goroutines is assigned inside the loop")
+						c.bad(pre+"captured variable "+al.Comment, st.Pos(), "a variable shared by all per-file goroutines is assigned inside the loop")
 					}
 				}
 			}
 		}
 	})
+	return n
 }
 
 // ---- C06.IFACECMP ----
@@ -702,45 +986,103 @@ func runC11Scan(c *Ctx) {
 		c.bad("(*RuleExpression).checkExprsIn|scan", fn.Pos(), "the placeholders are not scanned in a loop")
 		return
 	}
-	n := 0
+	// typeWithSemOK: v is the other result of the call whose boolean result is the "no diagnostic" flag
+	typeWithSemOK := func(v ssa.Value) bool {
+		ex, ok := v.(*ssa.Extract)
+		if !ok || ex.Tuple.Referrers() == nil {
+			return false
+		}
+		for _, ref := range *ex.Tuple.Referrers() {
+			if sib, ok := ref.(*ssa.Extract); ok && sib != ex && site.isSemOK(sib) {
+				return true
+			}
+		}
+		return false
+	}
+	// Edges on which the end of the placeholder is known to be unknown (the parser could not delimit it), and edges taken
+	// because the placeholder got a diagnostic.
+	type edge struct {
+		b *ssa.BasicBlock
+		i int
+	}
+	parseFailed := map[edge]bool{}
+	semFailed := map[edge]bool{}
 	for _, b := range fn.Blocks {
-		ret, ok := b.Instrs[len(b.Instrs)-1].(*ssa.Return)
-		if !ok || !reachableBlocks(call.Block().Succs, nil)[b] && b != call.Block() {
+		ifi, ok := b.Instrs[len(b.Instrs)-1].(*ssa.If)
+		if !ok {
 			continue
 		}
+		if site.isSemOK(ifi.Cond) {
+			semFailed[edge{b, 1}] = true
+		}
+		if v, nilSucc, ok := nilTest(ifi); ok {
+			// helper form: the type result is nil when nothing was parsed; inline form: the parse error is not nil, or
+			// the type that comes with the "no diagnostic" flag is nil (nothing was typed)
+			switch {
+			case site.isParseErr(v) && site.helper != nil, site.helper == nil && typeWithSemOK(v):
+				parseFailed[edge{b, nilSucc}] = true
+			case site.isParseErr(v):
+				parseFailed[edge{b, 1 - nilSucc}] = true
+			}
+		}
+		if bo, ok := ifi.Cond.(*ssa.BinOp); ok && (bo.Op == token.EQL || bo.Op == token.NEQ) {
+			for _, pair := range [][2]ssa.Value{{bo.X, bo.Y}, {bo.Y, bo.X}} {
+				if k, isConst := constInt(pair[1]); isConst && k == 0 && site.isOffset(pair[0]) {
+					if bo.Op == token.EQL {
+						parseFailed[edge{b, 0}] = true
+					} else {
+						parseFailed[edge{b, 1}] = true
+					}
+				}
+			}
+		}
+	}
+	// blocks reached from the parse of a placeholder without starting the next round of the loop, not using the edges in skip
+	from := func(skip ...map[edge]bool) map[*ssa.BasicBlock]bool {
+		seen := map[*ssa.BasicBlock]bool{}
+		work := []*ssa.BasicBlock{call.Block()}
+		for len(work) > 0 {
+			b := work[len(work)-1]
+			work = work[:len(work)-1]
+		succs:
+			for i, s := range b.Succs {
+				if s == hdr || seen[s] {
+					continue
+				}
+				for _, m := range skip {
+					if m[edge{b, i}] {
+						continue succs
+					}
+				}
+				seen[s] = true
+				work = append(work, s)
+			}
+		}
+		return seen
+	}
+	all := from()
+	all[call.Block()] = true
+	noParseFail := from(parseFailed)
+	noParseFail[call.Block()] = true
+	neither := from(parseFailed, semFailed)
+	neither[call.Block()] = true
+	n := 0
+	for _, b := range fn.Blocks {
 		// returns that can be reached from the call without going through the loop header again are exits taken because
-		// of this placeholder
-		stop := map[*ssa.BasicBlock]bool{hdr: true}
-		if !reachableBlocks(call.Block().Succs, stop)[b] {
+		// of this placeholder (a break shows as the return after the loop being reached this way)
+		ret, ok := b.Instrs[len(b.Instrs)-1].(*ssa.Return)
+		if !ok || !all[b] {
 			continue
 		}
 		n++
 		construct := fmt.Sprintf("(*RuleExpression).checkExprsIn|early exit#%d", n)
-		onlySemantic := false
-		parseFailed := false
-		for ifi, outcome := range controllingConds(b) {
-			if site.isSemOK(ifi.Cond) && !outcome {
-				onlySemantic = true
-			}
-			if v, nilSucc, ok := nilTest(ifi); ok && site.isParseErr(v) {
-				// helper form: the type result is nil when nothing was parsed; inline form: the parse error is not nil
-				if site.helper != nil && (nilSucc == 0) == outcome {
-					parseFailed = true
-				}
-				if site.helper == nil && (nilSucc == 0) != outcome {
-					parseFailed = true
-				}
-			}
-			if bo, ok := ifi.Cond.(*ssa.BinOp); ok && bo.Op == token.EQL && outcome {
-				if k, isConst := constInt(bo.Y); isConst && k == 0 && site.isOffset(bo.X) {
-					parseFailed = true
-				}
-			}
-		}
-		if onlySemantic && !parseFailed {
+		switch {
+		case !noParseFail[b]:
+			c.ok(construct, ret.Pos(), "every path from the parse of a placeholder to this exit passes a test that says the parser could not delimit the placeholder: the place where the next one starts is unknown")
+		case !neither[b]:
 			c.bad("(*RuleExpression).checkExprsIn|stops after a placeholder with a diagnostic", ret.Pos(), "the scan of a scalar stops at the first placeholder with any diagnostic: later placeholders of the same scalar are not checked (an untrusted input, a context that is not available or a syntax error in them is not reported)")
-		} else {
-			c.ok(construct, ret.Pos(), "the scan only stops where the end of the placeholder is unknown")
+		default:
+			c.bad(construct, ret.Pos(), "the scan of a scalar can stop after a placeholder that was parsed to its end and got no diagnostic: later placeholders of the same scalar are not checked")
 		}
 	}
 	if n == 0 {
